@@ -5,7 +5,7 @@ def spec():
     sub = Machine('Sub', ['U0', 'V0'], {
         'U0': St(deferred=['E2'], defer_atom=8),
         'U1': St(),
-        'V0': St(), 'V1': St(deferred=['E3']),
+        'V0': St(deferred=['E2'], defer_atom=9), 'V1': St(deferred=['E3']),
     }, [
         Row('U0', 'E1', 'U1'),
         Row('U1', 'E1', 'U0'),
